@@ -1119,6 +1119,13 @@ func (en *Engine) transfer(st *State, fr *Frame, to *ssa.BasicBlock) []*State {
 		en.enterBlock(st, fr, to, nil)
 		return []*State{st}
 	}
+	// a loop that only strips trailing bytes equal to a constant is bytes.TrimRight (canon.go)
+	if phi, exit, val, ok := en.trimRightLoop(st, fr, li, to, from); ok {
+		fr.env[phi] = val
+		fr.block = to
+		en.enterBlock(st, fr, exit, nil)
+		return []*State{st}
+	}
 	id := fr.ctx + "/loop." + fmt.Sprintf("%s:b%d", baseFn(fr.fn), to.Index)
 	// a loop whose exit test compares an induction variable (constant start and step) with a value that is a
 	// compile-time constant on this path — typically a range over a literal table — is executed as written
